@@ -25,6 +25,7 @@ type sop struct {
 	Val   []byte
 	Ver   int64
 	Limit int64 // fresh: -1 = no gas store
+	Num   int64 `json:",omitempty"` // getprev: State.GetPrevious(Num, key); Ver = (block commits so far) - Num, filled by runCase
 }
 
 type sobs struct {
@@ -79,6 +80,12 @@ func (s *storeUnderTest) open() {
 }
 
 func (s *storeUnderTest) apply(o sop) (ob sobs) {
+	// a panic of the code under test (any operation) is an observation, not a harness failure
+	defer func() {
+		if r := recover(); r != nil {
+			ob = sobs{Kind: "panic"}
+		}
+	}()
 	k := storage.StoreKey(keyBytes(o.Key))
 	switch o.Kind {
 	case "get":
@@ -116,6 +123,9 @@ func (s *storeUnderTest) apply(o sop) (ob sobs) {
 		return sobs{Kind: "version", Ver: v, Hash: hex.EncodeToString(h)}
 	case "getver":
 		v := s.st.GetVersioned(o.Ver, k)
+		return sobs{Kind: "val", Val: v, Has: v != nil}
+	case "getprev":
+		v := s.st.GetPrevious(o.Num, k)
 		return sobs{Kind: "val", Val: v, Has: v != nil}
 	case "fresh":
 		s.st = storage.NewState(s.cs)
@@ -225,8 +235,19 @@ func enumOps(length int, emit func([]sop)) {
 
 func runCase(rot srot, ops []sop) scase {
 	s := newSUT(rot)
+	ops = append([]sop{}, ops...)
 	c := scase{Rot: rot, Ops: ops}
-	for _, o := range ops {
+	commits := int64(0)
+	for i, o := range ops {
+		if o.Kind == "getprev" {
+			// the model op is GetVersioned (version - num); the version is the number of block
+			// commits so far (counted here, not read from the code under test)
+			ops[i].Ver = commits - o.Num
+			o = ops[i]
+		}
+		if o.Kind == "blockcommit" {
+			commits++
+		}
 		c.Obs = append(c.Obs, s.apply(o))
 	}
 	return c
@@ -241,7 +262,7 @@ func strip(ops []sop) []sop {
 	inSess := false
 	for _, o := range ops {
 		switch o.Kind {
-		case "get", "exists", "getver":
+		case "get", "exists", "getver", "getprev":
 		case "begin":
 			pending, inSess = nil, true
 		case "discard":
@@ -439,10 +460,15 @@ func c09Mirror(ops []sop, st *c09Stats) []c09Call {
 }
 
 // c09TreeTwin: a bare real ChainState (no State, no caches) fed the given calls; root hashes of its commits
-func c09TreeTwin(rot srot, calls []c09Call) []string {
+func c09TreeTwin(rot srot, calls []c09Call) (hs []string) {
 	s := &storeUnderTest{db: tmdb.NewMemDB(), rot: rot}
 	s.open()
-	hs := []string{}
+	hs = []string{}
+	defer func() {
+		if r := recover(); r != nil {
+			hs = append(hs, "panic")
+		}
+	}()
 	for _, c := range calls {
 		k := storage.StoreKey(keyBytes(c.Key))
 		switch c.Kind {
@@ -624,6 +650,112 @@ func c09Sweep(emit func([]sop)) {
 	}
 }
 
+// ---- generators aimed at saved versions, rotation and reopen ------------------------------------
+
+var c09Rots = []srot{{0, 0, 0}, {1, 0, 0}, {3, 0, 0}, {10, 100, 10} /* node default */, {1, 1, 0}, {2, 2, 1}, {3, 2, 2}, {1, 3, 1}, {10, 5, 2}}
+
+// readAll: versioned reads of EVERY version 0..ver+1 (retained or rotated out) for the given keys,
+// through GetVersioned and through GetPrevious (all distances 0..ver), plus plain reads
+func c09ReadAll(ops []sop, keys []int, ver int64) []sop {
+	for _, k := range keys {
+		ops = append(ops, sop{Kind: "get", Key: k}, sop{Kind: "exists", Key: k})
+		for v := int64(0); v <= ver+1; v++ {
+			ops = append(ops, sop{Kind: "getver", Key: k, Ver: v})
+		}
+	}
+	for n := int64(0); n <= ver; n++ {
+		ops = append(ops, sop{Kind: "getprev", Key: keys[int(n)%len(keys)], Num: n})
+	}
+	return ops
+}
+
+// genVersions: many small blocks under one rotation setting; every version is read back after
+// commits, and completely before and after every reopen (and again after later commits, when the
+// rotation rule must have released versions written before the reopen)
+func c09GenVersions(r *rand.Rand, rot srot, nblocks int) []sop {
+	ops := []sop{}
+	keys := []int{0, 1, 2}
+	ver := int64(0)
+	for b := 0; b < nblocks; b++ {
+		for i := 1 + r.Intn(3); i > 0; i-- {
+			k := keys[r.Intn(len(keys))]
+			sess := r.Intn(3) == 0
+			if sess {
+				ops = append(ops, sop{Kind: "begin"})
+			}
+			if r.Intn(100) < 20 {
+				ops = append(ops, sop{Kind: "delete", Key: k})
+			} else {
+				ops = append(ops, sop{Kind: "set", Key: k, Val: []byte{byte('a' + b%26), byte('0' + r.Intn(10))}})
+			}
+			if sess {
+				ops = append(ops, sop{Kind: "commit"})
+			}
+		}
+		ops = append(ops, sop{Kind: "blockcommit"})
+		ver++
+		for i := r.Intn(4); i > 0; i-- {
+			ops = append(ops, sop{Kind: "getver", Key: keys[r.Intn(3)], Ver: r.Int63n(ver + 2)})
+		}
+		if r.Intn(2) == 0 {
+			ops = append(ops, sop{Kind: "getprev", Key: keys[r.Intn(3)], Num: r.Int63n(ver + 1)})
+		}
+		switch x := r.Intn(100); {
+		case x < 22 || b == nblocks/2:
+			ops = c09ReadAll(ops, keys, ver)
+			if r.Intn(4) == 0 {
+				ops = append(ops, sop{Kind: "set", Key: keys[r.Intn(3)], Val: []byte("lost")}) // uncommitted at the restart
+			}
+			ops = append(ops, sop{Kind: "reopen"})
+			ops = c09ReadAll(ops, keys, ver)
+		case x < 30:
+			ops = c09ReadAll(ops, keys[:1], ver)
+		case x < 36:
+			ops = append(ops, sop{Kind: "fresh", Limit: -1})
+		}
+	}
+	return c09ReadAll(ops, keys, ver)
+}
+
+// version sweep: every rotation setting x n1 commits, reopen, n2 commits; everything read back
+// before the reopen, after it, and after the later commits
+func c09VersionSweep(emit func(srot, []sop)) {
+	for _, rot := range c09Rots {
+		for n1 := 0; n1 <= 4; n1++ {
+			for n2 := 0; n2 <= 3; n2++ {
+				for empty := 0; empty < 2; empty++ { // 1: the blocks before the reopen write nothing (empty tree)
+					ops := []sop{}
+					keys := []int{0, 1}
+					ver := int64(0)
+					blk := func(write bool) {
+						if write {
+							ops = append(ops, sop{Kind: "set", Key: int(ver) % 2, Val: []byte{byte('a' + ver)}})
+							if ver == 2 {
+								ops = append(ops, sop{Kind: "delete", Key: 1})
+							}
+						}
+						ops = append(ops, sop{Kind: "blockcommit"})
+						ver++
+					}
+					for i := 0; i < n1; i++ {
+						blk(empty == 0)
+					}
+					ops = c09ReadAll(ops, keys, ver)
+					ops = append(ops, sop{Kind: "reopen"})
+					ops = c09ReadAll(ops, keys, ver)
+					for i := 0; i < n2; i++ {
+						blk(true)
+					}
+					if n2 > 0 {
+						ops = c09ReadAll(ops, keys, ver)
+					}
+					emit(rot, ops)
+				}
+			}
+		}
+	}
+}
+
 func coqVal(b []byte) string {
 	parts := make([]string, len(b))
 	for i, x := range b {
@@ -652,7 +784,7 @@ func coqOp(o sop) string {
 		return "Write"
 	case "blockcommit":
 		return "BlockCommit"
-	case "getver":
+	case "getver", "getprev":
 		return fmt.Sprintf("GetVersioned (%d) %d%%N", o.Ver, o.Key)
 	case "fresh":
 		if o.Limit < 0 {
@@ -760,6 +892,7 @@ func c09Main(args []string) int {
 	outDir := fs.String("out", ".", "output directory")
 	shard := fs.Int("shard", 400, "cases per Coq file")
 	nblk := fs.Int("nblocks", -1, "number of block-shaped histories (-1: same as -n)")
+	nver := fs.Int("nversions", -1, "number of version/rotation/reopen histories (-1: half of -n)")
 	sweep := fs.Bool("sweep", true, "run the exhaustive discarded-session / write-order sweep")
 	corpus := fs.String("corpus", "", "JSON corpus file of op sequences to run first")
 	fs.Parse(args)
@@ -800,6 +933,26 @@ func c09Main(args []string) int {
 			rc.Family = "sweep"
 			cases = append(cases, rc)
 		})
+	}
+	if *sweep {
+		c09VersionSweep(func(rot srot, ops []sop) {
+			rc := runCase(rot, ops)
+			rc.Family = "version-sweep"
+			cases = append(cases, rc)
+		})
+	}
+	if *nver < 0 {
+		*nver = *nrand / 2
+	}
+	for i := 0; i < *nver; i++ {
+		rot := c09Rots[i%len(c09Rots)]
+		nb := 3 + r.Intn(8)
+		if rot.Recent >= 10 || i%7 == 6 {
+			nb = 12 + r.Intn(6) // beyond `recent`, so that the rule releases versions
+		}
+		rc := runCase(rot, c09GenVersions(r, rot, nb))
+		rc.Family = "versions"
+		cases = append(cases, rc)
 	}
 	if *nblk < 0 {
 		*nblk = *nrand
@@ -909,10 +1062,12 @@ func c09Main(args []string) int {
 	}
 
 	// write Coq case files
-	for s := 0; s*(*shard) < len(cases); s++ {
-		lo, hi := s*(*shard), (s+1)*(*shard)
-		if hi > len(cases) {
-			hi = len(cases)
+	for s, lo := 0, 0; lo < len(cases); s++ {
+		// a file holds at most -shard cases and about 12000 steps (the files are evaluated in parallel)
+		hi, steps := lo, 0
+		for hi < len(cases) && hi-lo < *shard && (steps < 12000 || hi == lo) {
+			steps += len(cases[hi].Ops)
+			hi++
 		}
 		var b bytes.Buffer
 		b.WriteString("From stdpp Require Import gmap list.\nFrom Coq Require Import ZArith.\n")
@@ -937,6 +1092,7 @@ func c09Main(args []string) int {
 			return 2
 		}
 		rep.Files = append(rep.Files, name)
+		lo = hi
 	}
 	for i := 0; i < len(cases) && len(rep.Samples) < 3; i += 1 + len(cases)/3 {
 		rep.Samples = append(rep.Samples, coqCase(cases[i]))
